@@ -313,6 +313,13 @@ CHECKS['C07']['text'] += (" R07.12: on no path through an evaluator handler is t
                           "elements included). R07.13: the analyser's constant folder may return an integer quotient for `/` only when the division is exact (one known finding).")
 CHECKS['C09']['text'] += " R09.3: every scope opened is closed on every normal path of the same function."
 CHECKS['C10']['text'] += " A record stored per declaration into an analyser table is built inside the loop that stores it."
+CHECKS['C01']['text'] += " No gate keeps its matrix in a static local initialised from the call's arguments."
+CHECKS['C03']['text'] += " Distinct qubit fields get distinct slots: a class copies its base's layout only after the base was populated (C10 R10.2, run here)."
+CHECKS['C07']['text'] += " Every binding site (declaration, parameter, return, typed store) passes its value through a stamping, hence widening, function (C08 R08.4, run here)."
+CHECKS['C10']['text'] += " Every visitor of a declaration with a body sets the per-callable members itself (C16 R16.G, run here)."
+CHECKS['C14']['text'] += " Each declarator node of a multi-declaration receives every attribute of the declaration, finished at the time of the copy."
+CHECKS['C17']['text'] += " An attribute copied to a further declarator is not written on the first one afterwards."
+CHECKS['C18']['text'] += " No function-local static is initialised from an argument or a local (it would keep the first call's value across shots)."
 
 NOT_YET = "check not yet built in this round (framework under construction; see DESIGN.md §4 for the planned static rules)"
 
